@@ -331,6 +331,14 @@ Definition lossless_run (tock : Z) (o : @run_out Z) : Prop :=
   forall k c, nth_error (r_cycles o) k = Some c ->
     c_stop c = (r_now o + (Z.of_nat k + 1) * tock + shifts (c_log c))%Z.
 
+(* on-time pacing, as a recurrence: cycle starts (clock) and deadlines when nothing but the doers' work and
+   exact sleeps move the clock: the next cycle starts at max(its deadline, end of this cycle's work) *)
+Fixpoint ideal (start stop d : Z) (works : list (Z * Z)) : list (Z * Z) :=
+  match works with
+  | [] => []
+  | wk :: rest => (start, stop) :: ideal (Z.max stop (start + fst wk)) (stop + d)%Z d rest
+  end.
+
 (* what can keep a wait from ending at once: a backward jump seen by a read, a sleep that returns early *)
 Definition bad_reads (rs : list (Z * Z)) : nat := length (filter (fun s => (0 <? snd s)%Z) rs).
 Definition bad_overs (os : list (@slp Z)) : nat :=
